@@ -1,4 +1,101 @@
-import WK.Spec.C22
-import WK.Model.C23
+import WK.Proofs.C23_Loop
+/-
+  C23 — Client stream decoding is robust to arbitrary bytes and splits.
+
+  Theorems about `WK.C23.adapterDecode` (= `Adapter.Decode`) and `WK.C23.feed`
+  (= the gateway's inbound-buffer discipline) over the C22 codec model — the
+  definitions `Driver/C23.lean` executes against the real adapter on every run.
+  `sv` is the session's negotiated-version value (any uint8; 0/unset = latest).
+-/
 namespace WK.C23
+open WK.C22
+
+/-! ## totality: arbitrary bytes -/
+
+/-- For ARBITRARY input bytes and any version the adapter never reaches the
+    unguarded `data[0]` (no panic), and whatever it returns is framed sanely:
+    it never claims more bytes than it was given, every frame accounts for at
+    least one consumed byte, and "no progress" and "no frames" coincide. An
+    error carries no frames and no progress by construction (`AllRes.err`). -/
+theorem c23_total (sv : Nat) (inp : Bytes) :
+    adapterDecode sv inp ≠ .panic ∧
+    ∀ fs c, adapterDecode sv inp = .ok fs c → c ≤ inp.length ∧ fs.length ≤ c ∧ (c = 0 ↔ fs = []) := by
+  unfold adapterDecode
+  split
+  · refine ⟨by simp, ?_⟩
+    intro fs c h
+    simp only [AllRes.ok.injEq] at h
+    obtain ⟨rfl, rfl⟩ := h
+    simp
+  · refine ⟨decodeLoop_no_panic _ _ _, ?_⟩
+    intro fs c h
+    obtain ⟨h1, h2, h3⟩ := decodeLoop_bounds _ _ _ _ _ h
+    refine ⟨h1, h2, ?_, h3⟩
+    intro hc
+    subst hc
+    exact List.eq_nil_of_length_eq_zero (by omega)
+
+example : adapterDecode 0 [0x13, 0xFF, 0xFF, 0xFF, 0xFF] = .err := by decide      -- oversize length
+example : adapterDecode 3 [0x80, 0x70, 0x31, 0x05] = .ok [.pong {}, .ping {}] 2 := by decide
+example : adapterDecode 6 [] = .ok [] 0 := by decide
+
+/-! ## streams of frames -/
+
+/-- **Stream concatenation**: decoding the concatenation of the encodings of any
+    list of in-limit frames returns exactly those (normalised) frames, in order,
+    and consumes the whole input. -/
+theorem c23_stream (sv : Nat) (fs : List Frame) (h : ∀ f ∈ fs, WithinLimits (effVersion sv) f) :
+    adapterDecode sv (encAll (effVersion sv) fs) =
+      .ok (fs.map (norm (effVersion sv))) (encAll (effVersion sv) fs).length := by
+  unfold adapterDecode
+  split
+  · rename_i hemp
+    cases fs with
+    | nil => simp [encAll]
+    | cons f fs' =>
+      exfalso
+      have := encOf_pos _ f (h f (by simp))
+      simp [encAll] at hemp
+      rw [hemp.1] at this
+      simp at this
+  · have := decodeLoop_frames (effVersion sv) fs [] (encAll (effVersion sv) fs).length h
+      (length_le_encAll _ fs h) (Or.inl rfl)
+    simpa using this
+
+/-- **No progress on a partial frame** (codec level): a strict prefix of an
+    in-limit frame's encoding makes `DecodeFrame` answer "need more data". -/
+theorem c23_no_progress_on_partial (v : Nat) (f : Frame) (hw : WithinLimits v f) (p q : Bytes)
+    (hpq : encOf v f = p ++ q) (hq : q ≠ []) (hp : p ≠ []) : decodeFrame v p = .need := by
+  rcases partial_stalls v f hw p q hpq hq with h | h
+  · exact absurd h hp
+  · exact h
+
+/-- … and at adapter level: complete frames followed by a strict prefix of one more
+    frame yield exactly the complete frames; the partial frame is neither reported
+    nor consumed nor an error. -/
+theorem c23_stream_partial (sv : Nat) (fs : List Frame) (f : Frame) (p q : Bytes)
+    (h : ∀ g ∈ fs, WithinLimits (effVersion sv) g) (hw : WithinLimits (effVersion sv) f)
+    (hpq : encOf (effVersion sv) f = p ++ q) (hq : q ≠ []) :
+    adapterDecode sv (encAll (effVersion sv) fs ++ p) =
+      .ok (fs.map (norm (effVersion sv))) (encAll (effVersion sv) fs).length := by
+  have hst := partial_stalls _ f hw p q hpq hq
+  unfold adapterDecode
+  split
+  · rename_i hemp
+    simp at hemp
+    cases fs with
+    | nil => simp [encAll]
+    | cons g fs' =>
+      exfalso
+      have := encOf_pos _ g (h g (by simp))
+      simp [encAll] at hemp
+      rw [hemp.1.1] at this
+      simp at this
+  · apply decodeLoop_frames _ fs p _ h _ hst
+    have := length_le_encAll _ fs h
+    simp; omega
+
+/-- non-vacuity: a RECVACK cut after 5 of its 18 bytes behind a complete PING -/
+example : adapterDecode 6 ([0x70] ++ [0x68, 16, 0, 0, 0]) = .ok [.ping {}] 1 := by decide
+
 end WK.C23
